@@ -117,7 +117,7 @@ public:
 		std::string tag = request().getenv("HTTP_X_REQ_ID");
 		if(!request().is_ready()){
 			// called before the content is read: install the content filter
-			FilterData *fd = new FilterData; fd->tag = tag; fd->mode = path.compare(0,5,"/echo") == 0 && path.find("mp") != std::string::npos ? 2 : 1;
+			FilterData *fd = new FilterData; fd->tag = tag; fd->mode = path.compare(0,7,"/echomp") == 0 ? 2 : 1;
 			if(request().content_type_parsed().is_multipart_form_data() == false) fd->mode = 1;
 			context().reset_specific<FilterData>(fd);
 			if(fd->mode == 1) request().set_content_filter(fd->rf); else request().set_content_filter(fd->mf);
@@ -189,7 +189,28 @@ struct Client : simk::Actor {
 	void finish_all(bool early){ for(size_t i=cur;i<ex.size();i++) if(!ex[i].done){ ex[i].done = true; ex[i].conn_closed_early = early; ex[i].t_done = simk::now_us(); } finished = true; if(c) c->close(); }
 	void start_exchange(){ sent = 0; segi = 0; deadline = simk::now_us() + timeout_us; E().t_start = simk::now_us(); }
 	void complete_current(){ Exchange &e = E(); e.done = true; e.t_done = simk::now_us(); cur++; if(cur >= ex.size()){ finished = true; c->close(); } else start_exchange(); }
+	// Parsing the whole receive buffer after every step is quadratic for a large response that arrives in thousands of small pieces (a 40 s
+	// "real-time hang" of the harness itself under FastCGI, found by a soak run). This gate decides cheaply and incrementally whether the full
+	// parsers could possibly report a complete (or broken) response; it may say yes too often, never no when they would say yes.
+	size_t g_last = 0, f_scan = 0; bool f_stop = false; long g_hdr_end = -1, g_cl = -1; bool g_chunked = false; size_t g_scan = 0;
+	bool maybe_complete(){
+		if(in.size() < g_last){ f_scan = 0; f_stop = false; g_hdr_end = -1; g_cl = -1; g_chunked = false; g_scan = 0; } g_last = in.size();
+		if(eof_seen || in.size() <= 16384) return true;
+		if(proto == 2){ int id = E().fl.request_id;
+			while(!f_stop && f_scan + 8 <= in.size()){ const unsigned char *h = (const unsigned char*)in.data() + f_scan; size_t cl = (h[4] << 8) | h[5], pl = h[6]; int type = h[1], rid = (h[2] << 8) | h[3];
+				if(h[0] != 1 || (type != 6 && type != 7 && type != 10) || (type != 10 && rid != id)){ f_stop = true; break; }   // END_REQUEST or anything the demultiplexer will object to
+				if(f_scan + 8 + cl + pl > in.size()) break; f_scan += 8 + cl + pl; }
+			return f_stop; }
+		if(proto == 0){
+			if(g_hdr_end < 0){ size_t p = in.find("\r\n\r\n",g_scan > 3 ? g_scan - 3 : 0); g_scan = in.size(); if(p == std::string::npos) return in.size() > 70000;   // no header block that long: let the parser say so
+				g_hdr_end = (long)p; std::string h = lower(in.substr(0,p)); g_chunked = h.find("chunked") != std::string::npos; size_t c = h.find("\r\ncontent-length:"); if(c != std::string::npos) g_cl = atol(h.c_str() + c + 17); }
+			if(g_chunked) return in.size() >= 4 && in.compare(in.size()-4,4,"\r\n\r\n") == 0;
+			if(g_cl >= 0) return in.size() >= (size_t)g_hdr_end + 4 + (size_t)g_cl;
+			return true; }
+		return true;
+	}
 	void try_parse(){
+		if(!maybe_complete()) return;
 		Exchange &e = E();
 		if(!e.well_formed){
 			// whatever comes back: a complete response or the server closing its side ends the exchange
@@ -264,7 +285,12 @@ struct E1 : Engine {
 		for(int i=0;i<nh;i++){ J h = J::arr(); static const char *names[] = {"X-Custom","Accept","User-Agent","x-lower-case","X-Mixed-Case-Header","Accept-Language","Referer","X-A"}; std::string nm = names[r.below(8)]; nm += std::to_string(i); h.push(nm);
 			std::string v = rnd_token(r,0,nh > 20 ? 6 : 20); if(r.below(3)==0 && nh <= 20) v += (v.empty() ? "x " : " ") + rnd_token(r,1,6) + "; q=0." + std::to_string(r.below(10)) + ", \"quoted \\\" str\" (comment)"; h.push(v); hs.push(h); }
 		// long values (around and above half a string-pool page = 1024 bytes, and above a whole page) get pages of their own in the environment's pool
-		if(r.below(5) == 0){ int nl = 1 + r.below(2); for(int i=0;i<nl;i++){ unsigned x = r.below(3); int len = x == 0 ? 1018 + (int)r.below(14) : x == 1 ? 1025 + (int)r.below(1023) : 2048 + (int)r.below(4000); J h = J::arr(); h.push("X-Long" + std::to_string(i)); h.push(rnd_token(r,len,len)); if(r.below(2)) hs.a.insert(hs.a.begin(),h); else hs.push(h); } }
+		// the front-ends refuse a request head above 16 KiB (http: bytes read until the end of the headers, scgi: header block, which repeats path and query in REQUEST_URI): all long fields of one request share a budget
+		int long_budget = 7000;
+		if(r.below(5) == 0){ int nl = 1 + r.below(2); for(int i=0;i<nl;i++){ unsigned x = r.below(3); int len = x == 0 ? 1018 + (int)r.below(14) : x == 1 ? 1025 + (int)r.below(1023) : 2048 + (int)r.below(4000); if(len > long_budget) continue; long_budget -= len; J h = J::arr(); h.push("X-Long" + std::to_string(i)); h.push(rnd_token(r,len,len)); if(r.below(2)) hs.a.insert(hs.a.begin(),h); else hs.push(h); } }
+		if(r.below(20) == 0){ J h = J::arr(); h.push("X-Long-Name-" + rnd_token(r,110,300)); h.push(rnd_token(r,0,10)); hs.push(h); }   // FastCGI: name length needs the 4-byte form
+		if(r.below(20) == 0 && long_budget >= 2*1020){ int len = 1020 + (int)r.below(std::min(1980,long_budget/2 - 1020) + 1); long_budget -= 2*len; q["query"] = "long=" + rnd_token(r,len,len); q["has_query"] = true; }
+		if(r.below(25) == 0 && long_budget >= 2*1020){ int len = 1020 + (int)r.below(std::min(1480,long_budget/2 - 1020) + 1); long_budget -= 2*len; path += "/" + rnd_token(r,len,len); q["path"] = path; }
 		q["headers"] = hs;
 		J cs = J::arr(); int nc = r.below(4); for(int i=0;i<nc;i++){ J c = J::arr(); c.push(rnd_token(r,1,6) + std::to_string(i)); c.push(rnd_token(r,0,12)); c.push((int)(r.below(3)==0)); cs.push(c); } q["cookies"] = cs;
 		if((m == "POST" || m == "PUT") && (prop == "C12" ? r.below(10) < 8 : r.below(10) == 0)){
@@ -605,7 +631,10 @@ struct E1 : Engine {
 							want = echo_text(x.env,x.get,Pairs(),x.cookies,"",std::vector<std::string>()) + "X mode=1 end=1 err=0 raw " + blob(e.req.body) + " chunks>0=1\n"; }
 						else want = echo_text(x.env,x.get,x.post,x.cookies,x.body,x.files) + "X mode=2 end=1 err=0 new=" + std::to_string(e.req.parts.size()) + " ready=" + std::to_string(e.req.parts.size()) + " shrank=0\n"; }
 					else want = echo_text(x.env,x.get,x.post,x.cookies,x.body,x.files);
-					if(body != want){ res.fail("request-misdelivered",who + ": the application observed a different request. " + first_diff(body,want)); break; }
+					if(body != want && getenv("E1_DEBUG_ECHO")) fprintf(stderr,"---- got:\n%s\n---- want:\n%s\n",body.c_str(),want.c_str());
+					// the class names the kind of the first differing line (E env, G get, P post, C cookie, B body, F file, X filter): minimisation must not drift from one kind of difference into another
+					if(body != want){ std::string fd = first_diff(body,want); size_t g = fd.find("got line: "), x = fd.find("| expected line: "); std::string kind; if(g != std::string::npos && g + 10 < fd.size() && fd[g+10] != ' ') kind += fd[g+10]; else kind += '-'; if(x != std::string::npos && x + 17 < fd.size()) kind += fd[x+17]; else kind += '-';
+						res.fail("request-misdelivered:" + kind,who + ": the application observed a different request. " + fd,"request-misdelivered"); break; }
 				} else { n_writer++;
 					std::string want = script_body(normalise_script(e.script),e.salt); const J *ck = nullptr; (void)ck;
 					std::string ckey; { size_t p = e.req.query.find("&cache="); if(p != std::string::npos) ckey = e.req.query.substr(p+7); }
